@@ -21,6 +21,7 @@ import (
 	"sort"
 	"strconv"
 	"strings"
+	"sync"
 	"time"
 
 	"go.opentelemetry.io/otel/codes"
@@ -235,6 +236,7 @@ type Case struct {
 	C    Cfg
 	Q    Req   `json:",omitempty"`
 	H    []Req `json:",omitempty"`
+	Conc int   `json:",omitempty"` // kind A: serve the history on this many goroutines
 }
 
 // ---------------------------------------------------------------- probe handlers
@@ -651,32 +653,60 @@ type metricRow struct {
 func runA(id string, cs Case) string {
 	e, err := newApp(cs.C)
 	l := &lineB{hx.NewLine(id)}
-	l.Tok("A").Nat(len(cs.H))
+	if cs.Conc > 0 {
+		l.Tok("AC").Nat(len(cs.H))
+	} else {
+		l.Tok("A").Nat(len(cs.H))
+	}
 	if err != nil {
 		fmt.Fprintln(os.Stderr, "app.New:", err)
 		os.Exit(1)
 	}
 	type cl struct{ status, size int }
-	var clients []cl
+	results := make([]cl, len(cs.H))
 	panicked := false
-	for _, q := range cs.H {
+	serve := func(i int) {
 		rw := httptest.NewRecorder()
-		func() {
-			defer func() {
-				if r := recover(); r != nil {
-					panicked = true
+		defer func() {
+			if r := recover(); r != nil {
+				panicked = true
+			}
+		}()
+		e.a.Router().ServeHTTP(rw, newRequest(cs.H[i]))
+		results[i] = cl{rw.Code, rw.Body.Len()}
+	}
+	if cs.Conc > 0 {
+		var wg sync.WaitGroup
+		ch := make(chan int)
+		for g := 0; g < cs.Conc; g++ {
+			wg.Add(1)
+			go func() {
+				defer wg.Done()
+				for i := range ch {
+					serve(i)
 				}
 			}()
-			e.a.Router().ServeHTTP(rw, newRequest(q))
-		}()
+		}
+		for i := range cs.H {
+			ch <- i
+		}
+		close(ch)
+		wg.Wait()
+	} else {
+		for i := range cs.H {
+			serve(i)
+		}
+	}
+	var clients []cl
+	for i, q := range cs.H {
 		f := predict(cs.C, q)
 		f.obs = true
 		f.live = !strings.HasPrefix(q.Path, exclPrefix)
 		l.facts(f)
-		l.prog(q.Prog, rw.Body.Len())
+		l.prog(q.Prog, results[i].size)
 		l.Str(q.Method)
 		if f.live {
-			clients = append(clients, cl{rw.Code, rw.Body.Len()})
+			clients = append(clients, results[i])
 		}
 	}
 	l.Strs(patterns(cs.C))
@@ -731,13 +761,39 @@ func runA(id string, cs Case) string {
 		}
 	}
 	l.Nat(len(started)).Nat(len(ended)).I64(active)
-	l.Nat(len(ended))
-	for i, sp := range ended {
+	type spanRow struct {
+		name string
+		err  int
+	}
+	var sps []spanRow
+	for _, sp := range ended {
 		errCode := 0
 		if sp.Status().Code == codes.Error {
 			_, _ = fmt.Sscanf(sp.Status().Description, "HTTP %d", &errCode)
 		}
-		l.Str(sp.Name()).Nat(errCode)
+		sps = append(sps, spanRow{sp.Name(), errCode})
+	}
+	if cs.Conc > 0 {
+		// completion order is not part of a concurrent case: spans and client results as sorted multisets
+		sort.Slice(sps, func(i, j int) bool {
+			if sps[i].name != sps[j].name {
+				return sps[i].name < sps[j].name
+			}
+			return sps[i].err < sps[j].err
+		})
+		sort.Slice(clients, func(i, j int) bool {
+			if clients[i].status != clients[j].status {
+				return clients[i].status < clients[j].status
+			}
+			return clients[i].size < clients[j].size
+		})
+	}
+	l.Nat(len(sps))
+	for i, sp := range sps {
+		l.Str(sp.name).Nat(sp.err)
+		if cs.Conc > 0 {
+			continue
+		}
 		if i < len(clients) {
 			l.Nat(clients[i].status).Nat(clients[i].size)
 		} else {
@@ -753,6 +809,12 @@ func runA(id string, cs Case) string {
 	for _, k := range keys {
 		r := rows[k]
 		l.Str(r.route).Nat(r.status).I64(r.count).I64(r.size)
+	}
+	if cs.Conc > 0 {
+		l.Nat(len(clients))
+		for _, c := range clients {
+			l.Nat(c.status).Nat(c.size)
+		}
 	}
 	return l.String() + hx.Comment(cs)
 }
@@ -1002,6 +1064,10 @@ func main() {
 				}
 			}
 			cs := Case{Kind: "A", C: c, H: h}
+			if k%3 == 2 {
+				cs.Conc = 8
+				st.Count("A-histories-concurrent")
+			}
 			st.Count("A-histories")
 			st.Case(fmt.Sprintf("%+v", cs), nt)
 			fmt.Fprintln(w, run(fmt.Sprintf("c08-%d-a%d", a.Seed, k), cs))
